@@ -11,6 +11,7 @@ int  vp_sock_sent(int fd, void* out, int cap);         /* copies what the code u
 void vp_sock_fragment(int fd, int on);                 /* the next `on` read() calls return a symbolic number of bytes in 1..available */
 void vp_sock_set_server(void (*fn)(int server_fd));       /* connect()ed sockets talk to fn, run when the client blocks */
 int  vp_sock_peer_of(int fd);
+void vp_sock_on_idle(int fd, void (*fn)(int fd));         /* fn plays the peer: called when the code looks for input and none is pending */
 #ifdef __cplusplus
 }
 #endif
